@@ -227,6 +227,10 @@ pub fn run_positions(ctx: &mut Ctx) {
     ctx.extra.insert("exhaustive_alphabet_depth".into(), json!(depth));
     let n = ctx.n(6_000, 150_000);
     ctx.run_search(&p, n, 120, 400);
+    if ctx.thorough() || std::env::var("VERIF_FUZZ").is_ok() {
+        let runs = ctx.n(200_000, 6_000_000) as u64;
+        crate::fuzzsup::run_campaign(ctx, &p, &crate::fuzzsup::Campaign { target: "fuzz_position", decode: crate::fuzzsup::decode_position, runs, max_len: 1024, seeds: crate::fuzzsup::repo_seeds(800, 100, &[1, 2, 3, 4]), timeout: std::time::Duration::from_secs(3000) });
+    }
     ctx.require_class("positions/offset-adjacent-to-astral-char");
     ctx.require_class("positions/offset-inside-CRLF");
     ctx.require_class("positions/out-of-range-positions");
